@@ -11,9 +11,10 @@ CONSTANTS
   JBoxes = {"none", "special", "plain"}
   JunkNames = {"Junk", "Suspect"}
   QuarSet = {FALSE, TRUE}
+  WatchSet = {FALSE, TRUE}
   EnvActs = {"Delete", "Login"}
   DelAccts = {"a", "b"}
   Faults = TRUE
-  Devs = {"CaseKey", "MapErrPerm", "BlobLeak"}
+  Devs = {"CaseKey", "MapErrPerm", "BlobLeak", "EarlyNotify"}
   Gen = TRUE
 CHECK_DEADLOCK FALSE
